@@ -931,6 +931,12 @@ def r4_parallel(prog, rep: Report, sf: SortedFacts):
                         base = strip_versions(e[1])
                         arr = "K" if base == KS else "V" if VS is not None and base == VS else None
                         kind, idx, val = "overwrite", e[2], e[3]
+                        sl = strip_versions(idx)
+                        if isinstance(sl, tuple) and sl[0] == "slice" and sl[1] == sl[2] and sl[3] == ("c", None):
+                            # lst[i:i] = [v]: insertion of v at i
+                            vv = strip_versions(val) if val is not None else None
+                            kind, idx = "insert", e[2][1]
+                            val = vv[1] if isinstance(vv, tuple) and vv[0] == "list" and len(vv) == 2 else None
                     if not arr:
                         continue
                     n_ops += 1
@@ -998,7 +1004,9 @@ def r5_provenance(prog, rep: Report, sf: SortedFacts):
                 s_._ver = 0
 
             def should_inline(s_, func, call, ctx):
-                return func.cls is not None and not func.cls.is_external and func.name.startswith("_") and not func.name.startswith("__")
+                if func.cls is None:
+                    return func.name.startswith("_") and func.mod is f.mod          # a private function of the module
+                return not func.cls.is_external and func.name.startswith("_") and not func.name.startswith("__")
 
             def refine(s_, test, state, ctx):
                 s_._ver = state[1]
